@@ -405,7 +405,7 @@ def search_set(run):
 PROPS['C06'] = {
     'modules': ['IpcModel.Props.C06'],
     'theorems': ['C06.C06_no_lost_wakeup', 'C06.C06_init', 'C06.C06_select_enabled', 'C06.C06_once_ordered', 'C06.C06_inv2_init', 'C06.C06_inv2_fresh',
-                 'C06.C06_inv2_step', 'C06.C06_cap_pos', 'RSetP.inv_step', 'RSetP.acct_step', 'RSetP.acct_run'],
+                 'C06.C06_inv2_step', 'C06.C06_cap_pos', 'RSetP.inv_step', 'RSetP.acct_step', 'RSetP.acct_run', 'C06.C06_shape'],
     'scenarios': (lambda a: (lambda tier, seed: a(tier, seed) + [{'args': ['crash', '--shape', str(i), '--tier', tier, '--observer', 'select']}
                                                        for i in ((1, 2, 4, 5) if tier == 'thorough' else (1, 2))]))(set_scen(800, 12000)),
     'search': search_set,
@@ -490,9 +490,12 @@ PROPS['C03'] = {
     'theorems': ['C03.C03_roots', 'C03.C03_iff', 'C03.C03_held_sender_connected', 'Ledger.inv_run', 'C03.C03_refine', 'C03.C03_unix_iff', 'Refine.sim_step',
                  'Reach.reachG_iff'],
     'builds': ['default', 'force-inprocess'],
-    'scenarios': world_scen(['default', 'force-inprocess'], 400, 8000),
+    'scenarios': plus(world_scen(['default', 'force-inprocess'], 400, 8000),
+                      lambda tier, seed: [{'args': ['crash', '--shape', str(i), '--tier', tier, '--only-stale', '1']} for i in ((1, 2, 4, 5) if tier == 'thorough' else (1, 2))]),
     'search': search_world,
-    'rule': ('seeded histories of clone / embed-in-message / extract / drop-handle / drop-carrying-receiver over an acyclic family of up to 6 channels (handles are embedded only '
+    'rule': ('crash --only-stale: a channel whose last sender handle travelled inside a multi-packet message whose sending process was killed before call k (every k) must report '
+             'disconnection to a blocking recv() within 4 s once the truncated message is discarded, while the owner of the carrying channel is blocked in recv(); '
+             'seeded histories of clone / embed-in-message / extract / drop-handle / drop-carrying-receiver over an acyclic family of up to 6 channels (handles are embedded only '
              'in lower-numbered channels), each receive issued as recv, try_recv or try_recv_timeout, followed by a final sweep of try_recv on every held receiver; results '
              '(message / empty / disconnected / send error) compared with Ideal.run and, on the OS build, with the descriptor-level model Unix.run (which must also find the program valid); non-trivial = at least one message carrying handles was received; distinct = distinct program'),
     'explanation': ('roots_coincide (open descriptor <=> owned by a live handle) proved for all histories; the specification Ideal (disconnected <=> empty queue and no sender handle '
